@@ -153,7 +153,7 @@ func runC07(c *Ctx) {
 		c.CheckGuard("C07.G1", "sd-"+typ+":key-valid", f, nil, callTo("jwk.Validate()", jwkValidate, pathIs(K)))
 		c.CheckGuard("C07.G1", "sd-"+typ+":key-curve-allowed", f, nil, &GCheck{Name: "key.Crv ∈ Protocol.KeyAlgorithms", MatchCall: func(c *Ctx, call *ssa.Call, env Env) bool {
 			g := call.Call.StaticCallee()
-			if g == nil || !inModule(g) || !isBoolType(call.Type()) || len(call.Call.Args) != 2 {
+			if g == nil || !(inModule(g) || isSlicesContains(g)) || !isBoolType(call.Type()) || len(call.Call.Args) != 2 {
 				return false
 			}
 			if c.Path(call.Call.Args[0], env) != "$0.Protocol.KeyAlgorithms" || c.Path(call.Call.Args[1], env) != K+".Crv" {
@@ -438,6 +438,10 @@ func (c *Ctx) configSinks() {
 				name := calleeName(&x.Call)
 				if strings.HasPrefix(name, "fmt.") || strings.Contains(name, "errors.") || strings.Contains(name, "/log") || strings.Contains(name, "slog") {
 					continue // formatting / logging
+				}
+				if g != nil && isSlicesContains(g) && idx == 0 {
+					add(fld, "element == value") // membership test by the standard library
+					continue
 				}
 				add(fld, fmt.Sprintf("arg %d of %s", idx, short(name)))
 			}
